@@ -106,7 +106,7 @@ def linear_of(F, kind, tag, n):
     if kind in ("Similarity", "AlignmentSimilarity"):
         k = F.real(tag + "_k", 0.05, 4)
         return rot(F, tag, n) * k, F.reals(tag + "_t", (n,))
-    if kind in ("Affine", "AlignmentAffine", "Homogeneous"):
+    if kind in ("Affine", "AlignmentAffine", "Homogeneous", "HomogeneousW", "HomogeneousP"):
         A = F.reals(tag + "_A", (n, n), -4, 4)
         d = det(A)
         F.assume(F.or_(d >= 0.05, d <= -0.05))
@@ -130,6 +130,14 @@ def mk_transform(F, kind, tag, n, n_pts=3):
 
     L, t = linear_of(F, kind, tag, n)
     h = h_of(F, L, t)
+    if kind in ("HomogeneousW", "HomogeneousP"):
+        # genuinely homogeneous members: bottom row [0..0 w] with w != 1 allowed, or fully projective
+        w = F.real(tag + "_w", -3, 3)
+        F.assume(F.or_(w >= 0.2, w <= -0.2))
+        h[n, n] = w
+        if kind == "HomogeneousP":
+            h[n, :n] = F.reals(tag + "_p", (n,), -1, 1)
+        return mt.Homogeneous(h, copy=False, skip_checks=True)
     cls = getattr(mt, kind)
     if kind == "Homogeneous":
         # a genuinely projective member: bottom row symbolic, w kept away from zero by the caller
@@ -192,6 +200,16 @@ def honest(F, ob, name, t):
         ob.eq(name + ".AtA=kI", G, I * G[0, 0])
 
 
+def homog_apply(h, x):
+    """independent reference for a homogeneous map: append 1, multiply, divide by the last coordinate"""
+    n = h.shape[0] - 1
+    out = []
+    for p in x:
+        hp = [sum(h[i, j] * p[j] for j in range(n)) + h[i, n] for i in range(n + 1)]
+        out.append([hp[i] / hp[n] for i in range(n)])
+    return np.array(out, dtype=object if (h.dtype == object or x.dtype == object) else float)
+
+
 def pointcloud(F, tag, n_pts, n):
     from menpo.shape import PointCloud
 
@@ -252,7 +270,7 @@ def mk_shape(F, cls, tag, n, npts=4, landmarks=0):
         raise KeyError(cls)
     lm_classes = ["PointCloud", "LabelledPointUndirectedGraph", "PointUndirectedGraph"]
     for i in range(landmarks):
-        s.landmarks["g%d" % i] = mk_shape(F, lm_classes[i % 3], "%s_lm%d" % (tag, i), n, npts=3)
+        s.landmarks["g%d" % i] = mk_shape(F, lm_classes[i % 3], "%s_lm%d" % (tag, i), n, npts=3 + (i % 2))
     return s
 
 
